@@ -58,3 +58,15 @@ TEXT = dict(
     text='C10: accepted messages satisfy the protocol limits, unwritable ones are rejected — limit by limit (C10_reject_too_many_fields: more than 255 kept fields; C10_reject_bad_value: a kept value misaligned with its base type / not valid UTF-8 / longer than 255 bytes; C10_reject_unbacked_dev: developer data index not announced or (index, number) not described; C10_reject_too_many_dev_fields; C10_reject_bad_dev_value; C10_reject_nothing_left; C10_reject_v1: developer fields or a base type after byte under protocol 1.0) and completely (C10_accept_batch / C10_accept_batch_all: everything writable passes, stream and batch gate; C10_batch_no_panic; C10_select_version: which version the gate validates under) —, validation = filter/map (besides expanded and invalid-valued fields it removes fields WITHOUT a FieldBase: such a field cannot be written at all — no number, no base type — and the message validator skips it silently; under protocol 1.0 it used to panic, KF-C10-1), idempotence (partial; syntactic forms C10_idempotent_not_f64: no float64-typed value in the accepted message, C10_idempotent_no_float64_base: no float64 base type in the message and the known descriptions), definition sizes are bytes. The theorems end at the gate\'s return value: that nothing of a rejected message is written rests on the order of calls in encoder.go / stream.go (gate before encodeMessage; a StreamEncoder has written the file header by then), tied by the ops encgate / streamgate which observe the bytes. The property is about the library\'s own validators: an encoder built with a custom encoder.WithMessageValidator is outside it; no panic for any message (nil FieldBase under protocol 1.0, F11, was reported by this check and is repaired in /repo: fixed entry KF-C10-1); an accepted message is never empty (a message of which no field and no developer field survives was accepted as the empty message; reported by this check and repaired in /repo: fixed entry KF-C10-3). WITH THE ARITHMETIC INSIDE (Fit.ValidatorA: D = the model of scaleoffset.DiscardValue over binary64, factory = the regenerated standard factory; composed from C12): C10_std_factory_in_range — every field the standard factory knows carries the unit pair or a pair meeting C12\'s side condition on an integer base type of at most 32 bits; C10_validate_filter_arith — C10_validate_filter with "restored" a definite function of the field (ScaleOffset.validatorRestore, the function C12_validator is about); C10_restore_exact — in any accepted message a field holding what ApplyValue makes of a raw value p (its float64 physical value) comes out holding exactly p under its base type, for every pair in range, and no conversion on the way is platform-defined; C10_physical_eq_raw — Validate on a message in physical units returns exactly what it returns on the same message in raw units (verdict, message, state); C10_restore_exact_native — developer field with a native-field override: scale and offset looked up in the regenerated factory, no hypothesis on the pair; C10_restore_exact_desc — the description\'s own uint8 scale 1..254 and int8 offset, all in range; C10_rescale_witness_arith — KF-C10-2 for the real arithmetic ((1.5+0)*2 = 3, (3+0)*2 = 6 evaluated in the binary64 model).',
     note='Trusted: Lean kernel; the consts / profilearith / validatorfac translators; line protocol; the binary64 model Fit.F64 (tied by C12\'s family f64 and, through the validator, by the inside-mode lines of family validate). DiscardValue arithmetic and standard-factory look-ups are computed by the model on the inside-mode lines (the carried-mode lines remain as a second, independent tie); NaN payloads are outside the F64 model.',
 )
+
+# --- tie by translation (translators/go2lean, notes/go2lean.md; agreement theorems in lean/FitProps/C10Go2Lean.lean).
+# Kept as a separate block so that it never collides with edits of the dictionary above.
+PROP['regen'] = PROP['regen'] + ['go2lean:basetype', 'go2lean:proto']
+PROP['go2lean_diff'] = ['Basetype', 'Proto']      # lean/Go2LeanDiff/<Topic>.lean: search for a differing argument when an agreement theorem breaks
+PROP['theorems'] = PROP['theorems'] + [
+    'Fit.C10.C10_go2lean_size',
+    'Fit.C10.C10_go2lean_valid',
+    'Fit.C10.C10_go2lean_validator',
+    'Fit.C10.C10_go2lean_version']
+PROP['trusted_base'] = PROP['trusted_base'] + [
+    "translators/go2lean (Go→Lean for a small subset of Go, notes/go2lean.md) re-translates BaseType.Size / Valid, the conditions of proto.Validator (proto/validator.go) and proto.Version (proto/version.go) from the current source on every run; the agreement theorems *_go2lean_* state that the translated functions equal the hand-written model functions for all arguments; trusted: the translator's rendering of the subset (go/types computes constants and types) and FitModel/GoPrelude.lean"]
